@@ -28,6 +28,10 @@ traits Clone Eq
 // the parts of a shred read here
 pub struct PayloadView { pub header: SliceHeader }
 pub struct ShredView { pub slice_sig: Signature }
+impl Clone for ValidatedShred {      // #[derive(Clone)]
+    #[verifier::external_body]
+    fn clone(&self) -> (r: Self) ensures r == *self { unimplemented!() }
+}
 impl ValidatedShred {
     #[verifier::external_body] pub fn slice_root(&self) -> (r: &SliceRoot) { unimplemented!() }
     #[verifier::external_body] pub fn payload(&self) -> (r: &PayloadView) { unimplemented!() }
